@@ -54,6 +54,7 @@ def check(run):
     _pipelines(run, prog)
     _own_copy(run, prog, classes['RayTransferEmitter'])
     _r7_objects(run, prog)
+    _r8_pipelines(run, prog)
     from ..cachekey import check_caches
     check_caches(run, [m for k, m in prog.modules.items() if k.startswith('cherab.tools.raytransfer') and not k.endswith('#pxd')], 'C10-K', prog=prog)
 
@@ -126,6 +127,85 @@ def _pipelines(run, prog):
                              '%s.%s accumulates into %s but %s does not re-initialise it: a second observation with the same pipeline starts from the '
                              'totals of the first, so the matrix is scaled or shifted by what was observed before' % (ci.name, acc_m, f, init_m))
     run.floor('C10-R5', 5)
+
+
+def _r8_pipelines(run, prog):
+    """R8: the pipelines turn what the pixel processors return into the matrix row: the 0D pipeline sums the per-pixel means and sample
+    counts and divides once at the end; the 1D / 2D pipelines store, for each pixel, the summed row divided by the samples per pixel;
+    the processors add the ray's spectrum (times the pixel sensitivity for 'power') and hand back (matrix, 0)."""
+    run.describe('C10-R8', 'pipelines / pixel processors: row = sum of sample spectra (x sensitivity) / number of samples')
+    mi = prog.modules.get('cherab.tools.raytransfer.pipelines')
+    if mi is None:
+        raise AnalysisError('anchored source file vanished: %s' % PIPES)
+    K = mi.name + '|'
+    for cname, cnode in sorted(mi.classes.items()):
+        ms = {m.name: m for m in cnode.body if isinstance(m, ast.FunctionDef)}
+        if 'update' in ms and 'initialise' in ms:
+            up = ms['update']
+            params = [a.arg for a in up.args.args]
+            packed = next((p for p in params if 'result' in p), None)
+            sts = [st for st in ast.walk(up) if isinstance(st, (ast.Assign, ast.AugAssign))]
+            run.subject('C10-R8')
+            if packed is None or not sts:
+                run.undecided('C10-R8', cname + '.update', 'stores not recognised')
+                continue
+            bad = None
+            got_matrix = False
+            for st in sts:
+                tgt = st.target if isinstance(st, ast.AugAssign) else st.targets[0]
+                t = norm(tgt)
+                v = norm(st.value).replace(' ', '')
+                if t == 'self._matrix' and isinstance(st, ast.AugAssign):
+                    got_matrix = True
+                    if not isinstance(st.op, ast.Add) or v != '%s[0]' % packed:
+                        bad = (st, 'the accumulated matrix is updated with %s; documented: += %s[0] (the summed row of the pixel)' % (norm(st), packed))
+                elif t == 'self._samples' and isinstance(st, ast.AugAssign):
+                    if not isinstance(st.op, ast.Add) or not (v in params):
+                        bad = (st, 'the sample count is updated with %s; documented: += the number of samples of the pixel' % norm(st))
+                elif t.startswith('self._matrix['):
+                    got_matrix = True
+                    if v != '%s[0]/self._samples' % packed:
+                        bad = (st, 'the row of a pixel is %s; documented: %s[0] / self._samples (summed row over the samples per pixel)' % (norm(st.value), packed))
+            if bad:
+                run.fail('C10-R8', K + cname + '|update', PIPES, bad[0].lineno, '%s.update: %s' % (cname, bad[1]))
+            elif not got_matrix:
+                run.fail('C10-R8', K + cname + '|update|nothing', PIPES, up.lineno, '%s.update does not store the result of the pixel into the matrix' % cname)
+            else:
+                run.ok('C10-R8', cname + '.update', 'row from packed_result[0]')
+            if any(isinstance(st, ast.AugAssign) and norm(st.target) == 'self._samples' for st in sts):
+                # the running sums are divided by the total number of samples exactly once, at the end
+                run.subject('C10-R8')
+                fin = ms.get('finalise')
+                divs = [st for st in (ast.walk(fin) if fin is not None else ()) if isinstance(st, ast.AugAssign) and norm(st.target) == 'self._matrix']
+                if len(divs) == 1 and isinstance(divs[0].op, ast.Div) and norm(divs[0].value) == 'self._samples':
+                    run.ok('C10-R8', cname + '.finalise', 'matrix /= samples')
+                else:
+                    run.fail('C10-R8', K + cname + '|finalise', PIPES, (fin or up).lineno,
+                             '%s.finalise does not divide the accumulated matrix by the number of samples exactly once (%s)' % (cname, [norm(d) for d in divs]))
+        if 'add_sample' in ms:
+            f = ms['add_sample']
+            sp, sens = [a.arg for a in f.args.args[1:3]]
+            run.subject('C10-R8')
+            sts = [st for st in ast.walk(f) if isinstance(st, (ast.Assign, ast.AugAssign))]
+            want = '%s.samples*%s' % (sp, sens) if 'Power' in cname else '%s.samples' % sp
+            alt = '%s*%s.samples' % (sens, sp) if 'Power' in cname else want
+            if len(sts) == 1 and isinstance(sts[0], ast.AugAssign) and isinstance(sts[0].op, ast.Add) and norm(sts[0].target) == 'self._matrix' \
+                    and norm(sts[0].value).replace(' ', '') in (want, alt):
+                run.ok('C10-R8', cname + '.add_sample', norm(sts[0]))
+            elif len(sts) == 1 and norm(sts[0].target if isinstance(sts[0], ast.AugAssign) else sts[0].targets[0]) == 'self._matrix':
+                run.fail('C10-R8', K + cname + '|add_sample', PIPES, sts[0].lineno, '%s.add_sample does %s; documented: self._matrix += %s' % (cname, norm(sts[0]), want))
+            else:
+                run.undecided('C10-R8', cname + '.add_sample', 'form not recognised')
+        if 'pack_results' in ms:
+            run.subject('C10-R8')
+            rets = [r for r in ast.walk(ms['pack_results']) if isinstance(r, ast.Return) and r.value is not None]
+            if len(rets) == 1 and norm(rets[0].value).replace(' ', '') in ('(self._matrix,0)', '(self._matrix,0.0)'):
+                run.ok('C10-R8', cname + '.pack_results', '(matrix, 0)')
+            elif len(rets) == 1 and isinstance(rets[0].value, ast.Tuple) and norm(rets[0].value.elts[0]) != 'self._matrix':
+                run.fail('C10-R8', K + cname + '|pack_results', PIPES, rets[0].lineno, '%s.pack_results returns %s: the pipeline reads the summed row from element 0' % (cname, norm(rets[0].value)))
+            else:
+                run.undecided('C10-R8', cname + '.pack_results', 'form not recognised')
+    run.floor('C10-R8', 6)
 
 
 def _r7_objects(run, prog):
@@ -243,13 +323,14 @@ def _r7_objects(run, prog):
             return vals[0] if vals[0] == vals[1] else None
         for ext, axis, what in sp['far']:
             cs = [frac_of_cell(L(ext) - n, axis) for n in nums if ext in n.leaves()]
-            good = [c for c in cs if c is not None and 0 < c <= _F(1, 100)]
-            exact = [n for n in nums if n.eq(L(ext))]
-            verdict.append((what, bool(good) and not exact, 'far'))
+            close = [c for c in cs if c is not None and abs(c) < _F(1, 2)]        # every dimension that is 'the extent, nearly'
+            good = [c for c in close if 0 < c <= _F(1, 100)]
+            verdict.append((what, bool(good) and len(good) == len(close), 'far'))
         for ext, axis, what in sp['near']:
             cs = [frac_of_cell(n - L(ext), axis) for n in nums if ext in n.leaves()]
-            good = [c for c in cs if c is not None and 0 < c <= _F(1, 100)]
-            verdict.append((what, bool(good), 'near'))
+            close = [c for c in cs if c is not None and abs(c) < _F(1, 2)]
+            good = [c for c in close if 0 < c <= _F(1, 100)]
+            verdict.append((what, bool(good) and len(good) == len(close), 'near'))
         if not nums:
             run.undecided('C10-R7', cname + ' bounding primitive', 'dimensions not resolved')
         elif all(v[1] for v in verdict):
